@@ -16,6 +16,8 @@ checks = {
          "Codes 1..16 and out-of-range codes x message pool x 0..3 typed details x error position x client forms x target protocols (12k/240k cases, thorough enumerates every HTTP status 300..599 for bare failures); client-decoded error compared with the backend's, HTTP status with the published tables; transcoder panics are violations.", "5/C04"),
  "C08": ("exploration", "metamorphic comparison against a reference segmentation, exhaustive compositions for streams <= 13 bytes",
          "Each base scenario is re-executed under ~45 read/write segmentations (client chunkings, handler read buffers 1..8/64/4096, handler write plans) and, in the thorough tier, under all 2^(n-1) compositions of request bodies and response streams of at most 13 bytes; decoded views must be identical to the reference run, raw bytes too wherever nothing is re-encoded in binary form. Adapter-path hooks must all have fired or the run is inconclusive.", "5/C08"),
+ "C09": ("fault_enumeration", "fault enumeration (every cut offset, flag value, bit flip, length lie) with a fault-aware backend and non-OK / prefix / well-formedness oracles",
+         "For each base scenario every single fault of the listed kinds is injected, one per execution (quick ~130k, thorough ~1.6M faulted executions): the client must see a non-OK outcome, the backend never a complete-looking message the client did not finish, the error must be well formed where the protocol allows it, ServeHTTP must return. Exhaustive per base scenario for cut offsets and flag values; base scenarios are sampled.", "5/C09"),
  "C05": ("exploration", "per-key metadata equality + position check + status-key leak monitor",
          "Random application header/trailer sets are pushed through every client-form/target pairing (20k/300k scenarios); per-key ordered value equality in both directions, trailers in the position the client's protocol defines, no protocol status key in application metadata.", "5/C05"),
 }
